@@ -393,8 +393,34 @@ fn case_lint(t: &mut Tape, st: &mut Stats) -> Verdict {
     let text = if malformed { format!("{}cmd \"unterminated\n", text) } else { text };
     let dir = format!("{}/c20l-{:?}", scratch_root(), std::thread::current().id()).replace(['(', ')'], "");
     let _ = std::fs::create_dir_all(&dir);
-    let path = format!("{}/lint.ds", dir);
-    std::fs::write(&path, &text).expect("write");
+    let mut path = format!("{}/lint.ds", dir);
+    let mut text = text;
+    let mut all_lower = all_lower;
+    if !malformed && t.chance(1, 6) {
+        // the linted path is a symbolic link in another directory and the file starts with a relative include: what
+        // is linted is what the library parses for that path, i.e. with the file that sits next to the LINK
+        let _ = std::fs::create_dir_all(format!("{}/real", dir));
+        let _ = std::fs::create_dir_all(format!("{}/link", dir));
+        text = format!("!include_files ./inc.ds\n{}", text);
+        let near_link_is_bad = t.flip();
+        let (near_link, near_target) = if near_link_is_bad { ("Included = set 1\n", "included = set 1\n") } else { ("included = set 1\n", "Included = set 1\n") };
+        std::fs::write(format!("{}/real/lint.ds", dir), &text).expect("write");
+        std::fs::write(format!("{}/link/inc.ds", dir), near_link).expect("write");
+        if t.chance(3, 4) {
+            std::fs::write(format!("{}/real/inc.ds", dir), near_target).expect("write");
+        }
+        path = format!("{}/link/lint.ds", dir);
+        std::os::unix::fs::symlink("../real/lint.ds", &path).expect("symlink");
+        if near_link_is_bad {
+            all_lower = false;
+            if bad_part.is_empty() {
+                bad_part = "output";
+            }
+        }
+        st.class("linted-path-is-a-symlink-with-a-relative-include");
+    } else {
+        std::fs::write(&path, &text).expect("write");
+    }
     let parses = duckscript::parser::parse_file(&path).is_ok();
     let flag = *t.pick_ref(&["-l", "--lint"]);
     let cli = run_duck(&[flag, &path]);
@@ -440,7 +466,7 @@ fn case_info(t: &mut Tape, _st: &mut Stats) -> Verdict {
 pub fn property() -> Property {
     Property {
         id: "C20",
-        rule: "(run) generated deterministic scripts (echo / set / calc / if-else / for-in / functions / goto / survivable errors; one body item in a hundred and ten prints 70..300 KiB in a loop) ending by success, unknown command, failing assert, exit with a non-zero code (incl. 256, 512, 65536, negative), exit 0, exit with text, a malformed line (C08 kinds), or exit_on_error + error, followed by lines that must not run; each is run by the library in process (same SDK, captured output) and by the real duck binary as 'duck file' (one file case in three: the file is a symbolic link in another directory and starts with a relative !include_files, with or without a decoy of the same name next to the link target; library and tool are given the same path), 'duck -e text' or 'duck --eval text': exit status 0 iff the library run is Ok, otherwise non-zero with stdout containing 'Error: ' + the library error's Display, and the stdout before it equal to the library output; (child-output) scripts that print and in between start a child process (exec of the echo binary) writing to the inherited stdout, succeeding or ending in a failed assert: the tool's whole stdout and zero / non-zero status must equal those of the library run, which the harness performs as a process of its own ('dsverif librun') so that the child's output lands in the same captured stream; (lint) files whose labels / commands / output variables are spelled over lower-case, digits, '_', non-ASCII lower (é ß я 日) with at most one planted upper-case letter (A Z É Я Σ Q) in a label (also alone on its line), command or output, upper-case arguments and comments everywhere, optionally a malformed last line: 'duck -l|--lint file' exits 0 iff the file parses and every label, command and output is lower-case by an independent per-character predicate; (info) --version prints the three version strings, --help/-h print the usage. Non-trivial: a script that printed something and (for failures) failed after that; distinct by (script, form)",
+        rule: "(run) generated deterministic scripts (echo / set / calc / if-else / for-in / functions / goto / survivable errors; one body item in a hundred and ten prints 70..300 KiB in a loop) ending by success, unknown command, failing assert, exit with a non-zero code (incl. 256, 512, 65536, negative), exit 0, exit with text, a malformed line (C08 kinds), or exit_on_error + error, followed by lines that must not run; each is run by the library in process (same SDK, captured output) and by the real duck binary as 'duck file' (one file case in three: the file is a symbolic link in another directory and starts with a relative !include_files, with or without a decoy of the same name next to the link target; library and tool are given the same path), 'duck -e text' or 'duck --eval text': exit status 0 iff the library run is Ok, otherwise non-zero with stdout containing 'Error: ' + the library error's Display, and the stdout before it equal to the library output; (child-output) scripts that print and in between start a child process (exec of the echo binary) writing to the inherited stdout, succeeding or ending in a failed assert: the tool's whole stdout and zero / non-zero status must equal those of the library run, which the harness performs as a process of its own ('dsverif librun') so that the child's output lands in the same captured stream; (lint) files whose labels / commands / output variables are spelled over lower-case, digits, '_', non-ASCII lower (é ß я 日) with at most one planted upper-case letter (A Z É Я Σ Q) in a label (also alone on its line), command or output, upper-case arguments and comments everywhere, optionally a malformed last line, one file in six reached through a symbolic link in another directory and starting with a relative include whose file next to the link and next to the link target differ in letter case: 'duck -l|--lint file' exits 0 iff the file parses and every label, command and output is lower-case by an independent per-character predicate; (info) --version prints the three version strings, --help/-h print the usage. Non-trivial: a script that printed something and (for failures) failed after that; distinct by (script, form)",
         assumptions: &[
             "the duck binary is built from /repo's working tree by check.sh (cargo build -p duckscript_cli, hooks off)",
             "REPL mode (no arguments) and title-case letters are not generated",
@@ -471,7 +497,7 @@ pub fn property() -> Property {
                     Tier::Thorough => Plan::Random { cases: 200_000, max_len: 300 },
                 },
                 case: case_lint,
-                min_classes: &[("lint-accepts", 500), ("lint-rejects-upper-case", 500), ("lint-parse-error", 100), ("upper-case-label-alone-on-its-line", 30), ("upper-case-output-variable-without-command", 30)],
+                min_classes: &[("lint-accepts", 500), ("lint-rejects-upper-case", 500), ("lint-parse-error", 100), ("upper-case-label-alone-on-its-line", 30), ("upper-case-output-variable-without-command", 30), ("linted-path-is-a-symlink-with-a-relative-include", 300)],
             },
             Section {
                 name: "info",
